@@ -380,39 +380,7 @@ impl Prop for C03 {
 
 // =========================================================================== C12
 
-struct Pipe {
-    rd: RawFd,
-    ino: u64,
-}
-
-fn make_pipe() -> Result<(Pipe, RawFd), String> {
-    let mut fds = [0 as RawFd; 2];
-    // SAFETY: pipe2 with a valid out array.
-    let r = unsafe { libc::pipe2(fds.as_mut_ptr(), libc::O_CLOEXEC | libc::O_NONBLOCK) };
-    if r != 0 {
-        return Err(format!("pipe2 failed: {}", std::io::Error::last_os_error()));
-    }
-    Ok((Pipe { rd: fds[0], ino: ino_of(fds[0]) }, fds[1]))
-}
-
-fn ino_of(fd: RawFd) -> u64 {
-    // SAFETY: fstat on a descriptor with a zeroed out struct.
-    unsafe {
-        let mut st: libc::stat = std::mem::zeroed();
-        if libc::fstat(fd, &mut st) != 0 {
-            return 0;
-        }
-        st.st_ino as u64
-    }
-}
-
-/// true = every write end of the pipe has been closed
-fn pipe_eof(rd: RawFd) -> bool {
-    let mut b = [0u8; 1];
-    // SAFETY: read into a valid buffer.
-    let r = unsafe { libc::read(rd, b.as_mut_ptr() as *mut libc::c_void, 1) };
-    r == 0
-}
+use crate::fds::{ino_of, make_pipe, pipe_eof, Pipe};
 
 pub struct C12;
 
@@ -539,6 +507,17 @@ impl Prop for C12 {
             };
             let res = conn.try_read(op);
             st.lib_calls += 1;
+            // the kernel passes up to 253 descriptors with one message; a receiver that offers less room
+            // loses them (truncated control data): the connection must always offer room for 253
+            let room = conn.sh.borrow().last_fd_room;
+            if conn.last_recvs > 0 && room < 253 {
+                result = Some(Violation::new(
+                    "C12:descriptor-room-too-small",
+                    step,
+                    format!("the receive call offered room for {} descriptors; a message may carry up to 253 and the excess would be lost", room),
+                ));
+                break 'run;
+            }
             // descriptors the stream could not hand over (no data delivered) stay ours: close them
             let given = conn.sh.borrow().last_fds_given;
             let leftover: Vec<RawFd> = conn.sh.borrow_mut().fd_pool.drain(..).collect();
@@ -650,10 +629,6 @@ impl Prop for C12 {
                 }
             }
         }
-        for p in &pipes {
-            // SAFETY: read ends are ours.
-            unsafe { libc::close(p.rd) };
-        }
         drop(sh);
         Ok(RunOut { violation: result, nontrivial, sig: sig.get(), trace_hash: sig.get() })
     }
@@ -669,10 +644,6 @@ fn cleanup(conn: &mut Conn, pipes: &mut Vec<Pipe>, new_pipes: &mut Vec<Pipe>) {
     for fd in conn.sh.borrow_mut().fd_pool.drain(..) {
         // SAFETY: ours.
         unsafe { libc::close(fd) };
-    }
-    for p in pipes.iter().chain(new_pipes.iter()) {
-        // SAFETY: ours.
-        unsafe { libc::close(p.rd) };
     }
     pipes.clear();
     new_pipes.clear();
